@@ -1,4 +1,4 @@
-CONSTANT MaxRows = 2
+CONSTANT MaxRows = 3
 INIT Init
 NEXT Next
 INVARIANT Laws
